@@ -1289,3 +1289,48 @@ def pattern_str_lits(n):
         elif x.get("k") in ("let", "letst"):
             rec(x.get("pat"))
     return out
+
+
+class SubCheck:
+    """Run another property's rule module inside a check, keeping only some of its rules under a new rule id."""
+
+    def __init__(self, ck, new_rule, desc, only_rules):
+        self.ck = ck
+        self.new_rule = new_rule
+        self.only = set(only_rules)
+        ck.rule(new_rule, desc)
+        self.units = ck.units
+        self.not_decided = []
+        self.notes = []
+        self.assumptions = []
+        self.instances = []
+
+    def rule(self, *a, **k):
+        pass
+
+    def note(self, s_):
+        pass
+
+    def ok(self, rule, key, detail="", loc=None):
+        if rule in self.only:
+            self.ck.ok(self.new_rule, "%s:%s" % (rule, key), detail, loc)
+        self.instances.append({"rule": rule, "key": key, "ok": True})
+
+    def bad(self, rule, key, detail, loc=None):
+        if rule in self.only or rule == "anchor":
+            self.ck.bad(self.new_rule, "%s:%s" % (rule, key), detail, loc)
+        self.instances.append({"rule": rule, "key": key, "ok": False})
+
+    def expect(self, cond, rule, key, detail_ok="", detail_bad="", loc=None):
+        if cond:
+            self.ok(rule, key, detail_ok, loc)
+        else:
+            self.bad(rule, key, detail_bad or detail_ok, loc)
+        return cond
+
+    def count(self, rule):
+        return sum(1 for i in self.instances if i["rule"] == rule)
+
+    def floor(self, rule, n):
+        if rule in self.only and self.count(rule) < n:
+            self.ck.bad(self.new_rule, "%s:floor" % rule, "sub-rule examined %d instances, floor %d" % (self.count(rule), n))
